@@ -20,7 +20,8 @@ type StrV struct{ T Tmpl }
 
 type ListV struct {
 	Finite   []Val // when IsFinite
-	Elem     Val   // uniform element otherwise
+	Prefix   []Val // not finite: known leading elements ([]string{name} extended by append in a loop)
+	Elem     Val   // uniform element otherwise (after the prefix)
 	IsFinite bool
 	ID       int // >0 for bound finite lists that may be iterated (ElemOf expansion)
 	Origin   string
@@ -831,24 +832,48 @@ func (x *Evaluator) boolPhi(v *ssa.Phi, vals []Val, preds []*ssa.BasicBlock, e *
 }
 
 func (x *Evaluator) listPhi(v *ssa.Phi, vals []Val) Val {
-	// loop-carried list built by append: uniform list of everything appended
-	var elems []Val
+	// loop-carried list built by append: the initial (finite) list stays a known prefix, followed
+	// by a uniform tail of everything appended
+	var elems, prefix []Val
 	origin := ""
+	inits, loops := 0, 0
 	for _, a := range vals {
 		switch a := a.(type) {
 		case ListV:
-			if a.IsFinite {
-				elems = append(elems, a.Finite...)
-			} else if a.Elem != nil {
-				elems = append(elems, a.Elem)
+			if a.Origin == "appended" {
+				loops++
+				elems = append(elems, a.uniform()...)
+			} else {
+				inits++
+				if a.IsFinite && inits == 1 {
+					prefix = a.Finite
+				} else {
+					elems = append(elems, a.uniform()...)
+				}
 			}
-			if origin == "" {
+			if origin == "" || origin == "appended" {
 				origin = a.Origin
 			}
 		case selfRef:
 		}
 	}
-	return ListV{Elem: joinVals(elems), Origin: origin}
+	if inits != 1 || loops == 0 {
+		elems = append(append([]Val{}, prefix...), elems...)
+		prefix = nil
+	}
+	return ListV{Prefix: prefix, Elem: joinVals(elems), Origin: origin}
+}
+
+// uniform: every element the list can hold, without positions.
+func (l ListV) uniform() []Val {
+	if l.IsFinite {
+		return l.Finite
+	}
+	out := append([]Val{}, l.Prefix...)
+	if l.Elem != nil {
+		out = append(out, l.Elem)
+	}
+	return out
 }
 
 func joinVals(vs []Val) Val {
@@ -1071,6 +1096,7 @@ func (x *Evaluator) evalCell(a *ssa.Alloc, at ssa.Instruction, e *env, c *evalCt
 					if l.IsFinite {
 						elems = append(elems, l.Finite...)
 					} else {
+						elems = append(elems, l.Prefix...)
 						elems = append(elems, l.Elem)
 					}
 				}
@@ -1224,8 +1250,11 @@ func (x *Evaluator) evalElemRead(a *ssa.IndexAddr, t types.Type, e *env, c *eval
 		}
 		return joinValsOr(l.Finite, x.symbolic(t, "elem"))
 	}
-	if l.Elem == nil {
+	if l.Elem == nil && len(l.Prefix) == 0 {
 		return x.symbolic(t, l.Origin+"[*]")
+	}
+	if len(l.Prefix) > 0 {
+		return joinValsOr(l.uniform(), x.symbolic(t, "elem"))
 	}
 	return l.Elem
 }
